@@ -21,7 +21,8 @@ CASE_TIMEOUT = 120
 WALL = {"quick": 900, "thorough": 7200}
 REQUIRED = {"strands_completed": 1500, "circular": 300, "json_circular": 100, "labelled_edges_copied": 300,
             "involution_checks": 1000, "unknown_rejected": 100, "single_nucleotide": 20, "end_to_end": 20,
-            "end_to_end_via_seq_list": 5, "json_keys_not_from_zero": 50,
+            "end_to_end_via_seq_list": 5, "json_keys_not_from_zero": 50, "json_keys_not_consecutive": 50,
+            "json_resids_not_from_one": 50, "json_nodes_listed_out_of_order": 50,
             "terminal_bases": 8}
 COMP = {"DA": "DT", "DT": "DA", "DG": "DC", "DC": "DG"}
 SWAP = {"5": "3", "3": "5", "": ""}
@@ -42,10 +43,11 @@ def comp_name(name):
     return COMP[base] + SWAP[suf]
 
 
-def snapshot(m):
+def snapshot(m, off=0):
+    """names, residue ids and labelled edges, ids counted from the first id of the strand (off)"""
     nodes = sorted(m.nodes, key=lambda x: m.nodes[x]["resid"])
-    return ([m.nodes[x]["resname"] for x in nodes], [m.nodes[x]["resid"] for x in nodes],
-            {frozenset((m.nodes[a]["resid"], m.nodes[b]["resid"])): dict(m.edges[(a, b)]) for a, b in m.edges})
+    return ([m.nodes[x]["resname"] for x in nodes], [m.nodes[x]["resid"] - off for x in nodes],
+            {frozenset((m.nodes[a]["resid"] - off, m.nodes[b]["resid"] - off)): dict(m.edges[(a, b)]) for a, b in m.edges})
 
 
 def make_strand(rng, workdir, res):
@@ -77,19 +79,30 @@ def make_strand(rng, workdir, res):
             names[0] += "5"
             names[-1] += "3"
         koff = rng.choice([0, 0, 1, 5])          # node ids need not start at 0
+        kstep = rng.choice([1, 1, 1, 10, 3])     # ... nor be consecutive
+        roff = rng.choice([0, 0, 0, 10, 3])      # residue ids need not start at 1 (a fragment numbered 11..16)
         if koff:
             bump(res, "json_keys_not_from_zero")
-        for i in range(n):
-            g.add_node(i + koff, resname=names[i], resid=i + 1)
-        edges = [(i + koff, i + 1 + koff) for i in range(n - 1)]
+        if kstep > 1:
+            bump(res, "json_keys_not_consecutive")
+        if roff:
+            bump(res, "json_resids_not_from_one")
+        key = lambda i: koff + i * kstep
+        listing = list(range(n))
+        if rng.random() < 0.5:
+            rng.shuffle(listing)                 # the order in which the file lists the residues is no information
+            bump(res, "json_nodes_listed_out_of_order")
+        for i in listing:
+            g.add_node(key(i), resname=names[i], resid=i + 1 + roff)
+        edges = [(key(i), key(i + 1)) for i in range(n - 1)]
         if circ:
-            edges.append((n - 1 + koff, koff) if rng.random() < 0.5 else (koff, n - 1 + koff))
+            edges.append((key(n - 1), key(0)) if rng.random() < 0.5 else (key(0), key(n - 1)))
         rng.shuffle(edges)
         lab = rng.choice([None, "circle", "x"])
         for a, b in edges:
             if rng.random() < 0.5:
                 a, b = b, a
-            if {a, b} == {koff, n - 1 + koff} and circ and lab:
+            if {a, b} == {key(0), key(n - 1)} and circ and lab:
                 g.add_edge(a, b, linktype=lab)
             elif rng.random() < 0.1:
                 g.add_edge(a, b, linktype="inner")
@@ -110,7 +123,8 @@ def run_case(cid, rng, workdir):
         return run_e2e(cid, rng, workdir, res)
     m, seq, circ, src = make_strand(rng, workdir, res)
     n = len(seq)
-    names0, resids0, edges0 = snapshot(m)
+    off = min(m.nodes[x]["resid"] for x in m.nodes) - 1
+    names0, resids0, edges0 = snapshot(m, off)
     res["sig"] = sig_of([seq, circ, src])
     res["sample"] = {"sequence": seq[:60], "length": n, "circular": circ, "source": src}
     res["nontrivial"] = n >= 2
@@ -118,7 +132,7 @@ def run_case(cid, rng, workdir):
     if cid[0] == "bad":
         # unknown residue name somewhere in the strand
         k = rng.randrange(n)
-        node = [x for x in m.nodes if m.nodes[x]["resid"] == k + 1][0]
+        node = [x for x in m.nodes if m.nodes[x]["resid"] == k + 1 + off][0]
         m.nodes[node]["resname"] = rng.choice(["DX", "A", "PEO", "DA7", "da"])
         try:
             complement_dsDNA(m)
@@ -143,7 +157,7 @@ def run_case(cid, rng, workdir):
         bump(res, "circular")
     note(res, "terminal_bases", (seq[0], "first"))
     note(res, "terminal_bases", (seq[-1], "last"))
-    names, resids, edges = snapshot(m)
+    names, resids, edges = snapshot(m, off)
     kind = "circular" if circ else "linear"
     if len(names) != 2 * n or resids != list(range(1, 2 * n + 1)):
         violation(res, "not-2n-residues:" + kind, "%d residues with ids %s..., expected 1..%d" % (len(names), resids[:6], 2 * n), w)
